@@ -209,6 +209,23 @@ def run(pid, tier, seed, replay):
                 ma_c = common.mode_a("MC_Cache.tla", "MC_Cache.cfg", wd, workers=4)
                 extra["mode_A_cache"] = {"module": "spec/MC_Cache.tla", "states": ma_c[1], "transitions": ma_c[0],
                                          "invariants": "CacheWithinMarked, CountersPositive, FetchBound, WildKept, CachedWasSaved, StackDistinct, StoredValuesPortable; every schedule of visits and of quantifier scopes over 3 keys + a wild-card"}
+                # unbounded: TLAPS proof that the protocol keeps StoredValuesPortable (spec/CacheProofs.tla)
+                import re as _re
+                import shutil as _sh
+                import subprocess as _sp
+                pdir = os.path.join(wd, "tlaps-cache")
+                os.makedirs(pdir, exist_ok=True)
+                for fn in ("Cache.tla", "CacheProofs.tla"):
+                    _sh.copy(os.path.join(common.SPEC, fn), pdir)
+                try:
+                    pr_ = _sp.run(["tlapm", "--threads", "4", "CacheProofs.tla"], cwd=pdir, capture_output=True, text=True, timeout=900)
+                except _sp.TimeoutExpired:
+                    raise ToolError("tlapm timed out on spec/CacheProofs.tla")
+                mm_ = _re.search(r"All (\d+) obligations? proved", pr_.stdout + pr_.stderr)
+                if not mm_:
+                    raise ToolError("tlapm did not prove spec/CacheProofs.tla:\n" + (pr_.stdout + pr_.stderr)[-1500:])
+                extra["proof_cache_protocol"] = {"module": "spec/CacheProofs.tla", "obligations": int(mm_.group(1)), "checker_cmd": "tlapm --threads 4 spec/CacheProofs.tla",
+                                                 "theorem": "IndInv /\\ Next => IndInv' and IndInv => StoredValuesPortable for spec/Cache.tla, no bound on keys, scopes or schedule"}
                 extra.setdefault("mode_A_evaluator", {})
                 extra["_add_states"] = (st["distinct"] + ma_c[1], st["states"] + ma_c[0])
             if pid in PRIMITIVES:
